@@ -205,6 +205,18 @@ func (k *kase) expectServed(when string, s *spec, allowed ...*actor) {
 	for _, a := range allowed {
 		ids = append(ids, a.id)
 	}
+	for _, r := range rs {
+		if r.Who == "" || ok[r.Who] {
+			continue
+		}
+		for _, a := range k.actors {
+			if strings.HasPrefix(r.Who, a.id+"|") {
+				k.c.Violation(k.key("traffic-served-by-another-session"), "%s: proxy %s (%s) is registered by %v, but a request was answered by %s (a session that gave the route up or never had it): %s",
+					when, s.Name, s.Kind, ids, r.Who, describe(rs))
+				return
+			}
+		}
+	}
 	k.c.Violation(k.key("live-proxy-not-served-by-owner"), "%s: proxy %s (%s) should be served by %v, probes saw %s", when, s.Name, s.Kind, ids, describe(rs))
 }
 
@@ -549,7 +561,11 @@ func (k *kase) workConnsReleased(when string, a *actor, s *spec) {
 	ok := h.Eventually(8*time.Second, func() bool { return a.openFor(s.Name) == 0 })
 	run.Count("work_conn_release_checks", 1)
 	if !ok {
-		k.c.Violation(fmt.Sprintf("work-connection-of-closed-proxy-left-open-%s", k.kind),
+		key := fmt.Sprintf("work-connection-of-closed-proxy-left-open-%s", k.kind)
+		if s.Limit != "" {
+			key += "-server-limiter"
+		}
+		k.c.Violation(key,
 			"%s: %d work connection(s) the server took for proxy %s (%s) are still open 8 s after the proxy was closed and no user connection is in progress",
 			when, a.openFor(s.Name), s.Name, s.Kind)
 	}
@@ -878,11 +894,15 @@ func (k *kase) partialFail() {
 			mu.Lock()
 			n := len(squat)
 			mu.Unlock()
+			unsquat()
+			// the port must be back (free, not bound, quota returned) after every failed attempt
+			if !k.checkLedger(fmt.Sprintf("after failed attempt %d (%s)", i, trimErr(resp.Error)), k.withSib(k.liveB())) {
+				return
+			}
 			if n == 0 {
 				k.inconclusive("registration failed before the port was acquired: " + trimErr(resp.Error))
 				return
 			}
-			unsquat()
 		}
 		rm()
 	case kd == "http" || kd == "https" || kd == "tcpmux":
